@@ -31,8 +31,14 @@ def targets(sb, minblocks, rng, tier):
     t |= {n - 1, n + 1, n + bpg, 2 * n, int(3.5 * n), n + 7, max(minblocks, 64), minblocks + 1, minblocks + bpg // 2}
     t = sorted(x for x in t if x >= minblocks and x != n and x * sb["bs"] <= 96 * 1024 * 1024)
     rng.shuffle(t)
-    out = [("size", x) for x in t[: (5 if tier == "quick" else 40)]]
+    shr = [first + k * bpg for k in range(1, sb["gdc"]) if first + k * bpg >= minblocks]       # drop whole groups
+    out = [("size", x) for x in shr[:2]] + [("size", x) for x in t[: (4 if tier == "quick" else 40)]]
     out.append(("-M", 0))
+    # requests resize2fs must refuse: below the minimum, with and without the (legal) -S option; and a no-op
+    if minblocks > 80:
+        out.append(("refuse", max(64, minblocks - 1)))
+        out.append(("refuseS", max(64, minblocks // 2)))
+    out.append(("same", n))
     return out
 
 
@@ -96,12 +102,15 @@ def one(args):
     rz = os.path.join(b, "resize", "resize2fs")
     tr, bl = img + ".nd", img + ".blob"
     e2 = dict(env, LD_PRELOAD=IOTRACE, VERIF_IOTRACE_TARGET=os.path.basename(img), VERIF_IOTRACE_OUT=tr, VERIF_IOTRACE_BLOBS=bl)
-    cmd = [rz, img] + (["-M"] if kind == "-M" else [str(val)])
     if kind == "-M":
         cmd = [rz, "-M", img]
+    elif kind == "refuseS":
+        cmd = [rz, "-S", "8", img, str(val)]
+    else:
+        cmd = [rz, img, str(val)]
     rc, out, err = sh(cmd, env=e2, timeout=300)
     txt = (out + err).decode("utf8", "replace")
-    res = {"profile": prof, "request": "-M" if kind == "-M" else str(val), "rc": rc, "msg": txt[-300:], "img": img, "img0_sha": hashlib.sha256(img0).hexdigest(),
+    res = {"profile": prof, "kind": kind, "request": "-M" if kind == "-M" else ("-S 8 %d" % val if kind == "refuseS" else str(val)), "rc": rc, "msg": txt[-300:], "img": img, "img0_sha": hashlib.sha256(img0).hexdigest(),
            "old_blocks": sb0["blocks"]}
     m = re.search(r"is now (\d+) \(\d+k\) blocks long", txt)
     res["reported"] = int(m.group(1)) if m else -1
@@ -123,6 +132,23 @@ def one(args):
     for f in (tr, bl):
         if os.path.exists(f):
             os.unlink(f)
+    # main clause facts
+    img1 = open(img, "rb").read()
+    sb1 = sbparse.parse_sb(img1[1024:2048])
+    res["new_blocks"] = sb1["blocks"] if sb1 else -1
+    res["errflag"] = 1 if (sb1 and sb1["state"] & 2) else 0
+    n0 = len(img0)
+    same_out = img1[:1024] == img0[:1024] and img1[2048:n0] == img0[2048:n0]
+    IGN = ("wtime", "kbytes_written")
+    same_sb = sb1 is not None and all(sb0[k] == sb1[k] for k in sb0 if k not in IGN) and \
+        img1[1024:1024 + 48] == img0[1024:1024 + 48] and img1[1024 + 52:1024 + 0x178] == img0[1024 + 52:1024 + 0x178] and \
+        img1[1024 + 0x180:1024 + 0x3FC] == img0[1024 + 0x180:1024 + 0x3FC]
+    res["unchanged"] = 1 if (same_out and same_sb) else 0
+    r2, o2, e2_ = sh([os.path.join(b, "e2fsck", "e2fsck"), "-fn", img], env=env, timeout=300)
+    res["fsck"] = r2
+    res["fsck_out"] = o2.decode("utf8", "replace")[-300:] if r2 else ""
+    res["consistent"] = -1
+    res["tree_equal"] = -1
     return res
 
 
@@ -264,6 +290,21 @@ def run(tier):
                                          "crash image of resize2fs %s on %s (cut %d) is modified, carries no error flag, and e2fsck -p treats it as clean" % (r["request"], r["profile"], x["cut"]), x)
         ev.cov["crash_images_rebuilt_runs"] = nfault
         main_done = main_clause(b, results, work)
+        ml = [json.dumps({"e": "resize", "rc": r["rc"] if r["rc"] in (0, 1) else 2, "reported": r["reported"], "nothing": r["nothing"], "new_blocks": r["new_blocks"],
+                          "errflag": r["errflag"], "unchanged": r["unchanged"], "fsck": r["fsck"], "consistent": r["consistent"], "tree_equal": r["tree_equal"]}) for r in results]
+        mres = tracecheck.validate_lines(ml, os.path.join(SPEC, "Trace_Resize.tla"), os.path.join(SPEC, "Trace_Resize.cfg"), work, chunk=400)
+        if mres["broken"]:
+            die_broken("TLC failed on Trace_Resize: %s\n%s" % (mres["broken"][0]["error"], mres["broken"][0]["tail"][-1200:]))
+        ev.cov["states"] += mres["distinct"]; ev.cov["transitions"] += mres["generated"]
+        for i in mres["bad"]:
+            r = results[i]
+            why = ("e2fsck -fn exit %d after a successful resize: %s" % (r["fsck"], r["fsck_out"][-120:])) if (r["rc"] == 0 and r["reported"] > 0 and r["fsck"] != 0) else \
+                  ("size %d differs from the reported %d" % (r["new_blocks"], r["reported"])) if (r["rc"] == 0 and r["reported"] > 0 and r["new_blocks"] != r["reported"]) else \
+                  ("independent oracle: inconsistent or a file changed (consistent=%s tree_equal=%s)" % (r["consistent"], r["tree_equal"])) if r["rc"] == 0 and r["reported"] > 0 else \
+                  "a refused / no-op request changed the filesystem (rc=%s, error flag %s)" % (r["rc"], r["errflag"])
+            vd.violation("main|%s|%s" % (r["profile"], r["request"]), "resize2fs %s on %s: %s" % (r["request"], r["profile"], why),
+                         {"profile": r["profile"], "kind": r["kind"], "request": r["request"], "facts": {k: r[k] for k in ("rc", "reported", "new_blocks", "fsck", "unchanged", "errflag", "consistent", "tree_equal")}, "msg": r["msg"]})
+        ev.cov["main_clause_lines"] = len(ml)
         ok_runs = [r for r in results if r["rc"] == 0 and r["reported"] > 0]
         ev.cov["evaluations"] = len(results)
         ev.cov["runs_succeeded"] = len(ok_runs)
@@ -298,11 +339,18 @@ def replay(path):
         b = build.build()
         basedir, meta = mkbase.base_images(b)
         src = os.path.join(basedir, rp["profile"] + ".img")
-        kind, val = ("-M", 0) if rp["request"] == "-M" else ("size", int(rp["request"]))
+        kind = rp.get("kind", "-M" if rp["request"] == "-M" else "size")
+        val = 0 if kind == "-M" else int(rp["request"].split()[-1])
         r = one((b, rp["profile"], src, kind, val, work, 0, False))
         beh = [json.dumps({k: e[k] for k in ("e", "k", "flag", "err0")}) for e in r["events"]]
         rej, m, inv, tail, _ = tracecheck.confirm(beh, os.path.join(SPEC, "Trace_ResizeCrash.tla"), os.path.join(SPEC, "Trace_ResizeCrash.cfg"), work)
         print("resize2fs %s on %s: rc=%s, %d device events" % (rp["request"], rp["profile"], r["rc"], len(beh)))
+        ml = [json.dumps({"e": "resize", "rc": r["rc"] if r["rc"] in (0, 1) else 2, "reported": r["reported"], "nothing": r["nothing"], "new_blocks": r["new_blocks"],
+                          "errflag": r["errflag"], "unchanged": r["unchanged"], "fsck": r["fsck"], "consistent": r["consistent"], "tree_equal": r["tree_equal"]})]
+        mres = tracecheck.validate_lines(ml, os.path.join(SPEC, "Trace_Resize.tla"), os.path.join(SPEC, "Trace_Resize.cfg"), work)
+        print(ml[0])
+        if mres["bad"] or mres["broken"]:
+            print("VIOLATION property=%s replay=%s" % (PID, path)); return 1
         if rej:
             print(tail[-800:]); print("VIOLATION property=%s replay=%s" % (PID, path)); return 1
         print("replay accepted"); return 0
